@@ -5,6 +5,7 @@ import (
 	"encoding/binary"
 	"encoding/hex"
 	"fmt"
+	"io"
 )
 
 type Reader struct {
@@ -50,6 +51,21 @@ func (p *Reader) ReadUint64() uint64 {
 	return res
 }
 
+// checkAvailable records the error a short read of n octets would produce, before
+// anything is allocated for it. It reports whether n octets are available.
+func (p *Reader) checkAvailable(n int, op string) bool {
+	remain := p.buffer.Len()
+	if remain >= n {
+		return true
+	}
+	if remain == 0 {
+		p.opError = newPacketError(io.EOF, op)
+	} else {
+		p.opError = newPacketError(fmt.Errorf("read unexpected length"), "ReadBytes")
+	}
+	return false
+}
+
 func (p *Reader) ReadBytes(receiver []byte) {
 	if p.opError != nil {
 		return
@@ -87,6 +103,10 @@ func (p *Reader) ReadCStringN(n int) string {
 		return ""
 	}
 
+	if !p.checkAvailable(n, "ReadCStringN read") {
+		return ""
+	}
+
 	temp := make([]byte, n)
 
 	r, err := p.buffer.Read(temp)
@@ -113,6 +133,10 @@ func (p *Reader) ReadCStringNWithoutTrim(n int) string {
 	}
 
 	if n <= 0 {
+		return ""
+	}
+
+	if !p.checkAvailable(n, "ReadCStringN read") {
 		return ""
 	}
 
@@ -155,6 +179,10 @@ func (p *Reader) ReadNBytes(n int) []byte {
 	}
 
 	if n <= 0 {
+		return nil
+	}
+
+	if !p.checkAvailable(n, "ReadCStringN read") {
 		return nil
 	}
 
